@@ -275,6 +275,5 @@ def run(ck: common.Check):
         "gcc build failures of the three classes listed in harness/c02_invalid_c_findings.md are deferred to C15 and counted "
         "in coverage.c_build_failures_deferred_to_C15; any other build failure is a violation",
     ]
-    if built:
-        ck.assumptions_from_vo("Backend", "Props_C02")
+    # Print Assumptions of every theorem is part of Props_C02.v; coq_build has collected it from the build log
     ck.log("timing: build+correspondence %.0fs, total %.0fs" % (t_corr, time.time() - t_start))
